@@ -18,10 +18,13 @@ package main
 import (
 	"bufio"
 	"context"
+	"crypto/tls"
 	"errors"
 	"fmt"
+	"io"
 	"net/http"
 	"net/http/httptest"
+	"os"
 	"path"
 	"sort"
 	"strings"
@@ -61,7 +64,16 @@ type ServerCfg struct {
 	Chain  bool `json:"chain"`  // rest.WithChain(chain.New(tag 2000))
 	Native bool `json:"native"` // the built-in middlewares of RestConf.Middlewares switched on
 	Must   bool `json:"must"`   // rest.MustNewServer instead of rest.NewServer
+	// options that must be transparent for dispatch
+	OwnRouter bool `json:"ownrouter"` // rest.WithRouter(router.NewRouter()) (given first)
+	CorsKind  int  `json:"corskind"`  // with cors: 0 WithCors(), 1 WithCorsHeaders, 2 WithCustomCors(nil, nil)
+	Files     bool `json:"files"`     // rest.WithFileServer("/static", a file system without files)
+	Extras    bool `json:"extras"`    // WithUnauthorizedCallback, WithUnsignedCallback, WithTLSConfig, Verbose
 }
+
+type noFiles struct{}
+
+func (noFiles) Open(name string) (http.File, error) { return nil, os.ErrNotExist }
 
 // Event is one step of the registration sequence.
 type Event struct {
@@ -95,6 +107,7 @@ type Out struct {
 	Res    []Res    `json:"res"`
 	Err    string   `json:"err,omitempty"`
 	// server kind, one entry per server
+	Printed     [][]string    `json:"printed"`      // the lines of Server.PrintRoutes() after the last event
 	Starts      []int         `json:"starts"`       // 0 routes bound, else class of the error Start died with; -1 never started
 	Routes      [][][2]string `json:"routes"`       // server.Routes() after the last event
 	TablesAfter [][][2]string `json:"tables_after"` // the user's slices after the last event
@@ -166,6 +179,9 @@ func (st *state) notAllowed() http.Handler {
 
 func newServer(c ServerCfg, st *state) (*rest.Server, error) {
 	var opts []rest.RunOption
+	if c.OwnRouter {
+		opts = append(opts, rest.WithRouter(router.NewRouter()))
+	}
 	if c.NF {
 		opts = append(opts, rest.WithNotFoundHandler(st.notFound()))
 	}
@@ -173,7 +189,23 @@ func newServer(c ServerCfg, st *state) (*rest.Server, error) {
 		opts = append(opts, rest.WithNotAllowedHandler(st.notAllowed()))
 	}
 	if c.Cors {
-		opts = append(opts, rest.WithCors())
+		switch c.CorsKind {
+		case 1:
+			opts = append(opts, rest.WithCorsHeaders("X-C09"))
+		case 2:
+			opts = append(opts, rest.WithCustomCors(nil, nil))
+		default:
+			opts = append(opts, rest.WithCors())
+		}
+	}
+	if c.Files {
+		opts = append(opts, rest.WithFileServer("/static", noFiles{}))
+	}
+	if c.Extras {
+		opts = append(opts,
+			rest.WithUnauthorizedCallback(func(w http.ResponseWriter, r *http.Request, err error) {}),
+			rest.WithUnsignedCallback(func(w http.ResponseWriter, r *http.Request, next http.Handler, strict bool, code int) {}),
+			rest.WithTLSConfig(&tls.Config{}))
 	}
 	if c.Chain {
 		opts = append(opts, rest.WithChain(chain.New(func(next http.Handler) http.Handler {
@@ -187,6 +219,7 @@ func newServer(c ServerCfg, st *state) (*rest.Server, error) {
 	conf.Log.Mode = "console"
 	conf.Log.Encoding = "plain"
 	conf.Mode = "test"
+	conf.Verbose = c.Extras
 	if c.Native {
 		conf.MaxConns = 10000
 		conf.MaxBytes = 1 << 20
@@ -225,6 +258,10 @@ func routeOpts(ev Event) []rest.RouteOption {
 			ro = append(ro, rest.WithSSE())
 		case "jwt":
 			ro = append(ro, rest.WithJwt(jwtSecret))
+		case "jwt2":
+			ro = append(ro, rest.WithJwtTransition(jwtSecret, "c09-previous-secret"))
+		case "sig":
+			ro = append(ro, rest.WithSignature(rest.SignatureConf{}))
 		}
 	}
 	return ro
@@ -258,6 +295,40 @@ func startServer(srv *rest.Server) (http.Handler, int) {
 		return nil, cls
 	}
 	return handler, 0
+}
+
+// printRoutes captures what Server.PrintRoutes writes to stdout: "Routes:" and one line per route.
+func printRoutes(srv *rest.Server) []string {
+	old := os.Stdout
+	r, w, err := os.Pipe()
+	if err != nil {
+		return []string{"<pipe: " + err.Error() + ">"}
+	}
+	os.Stdout = w
+	done := make(chan string)
+	go func() {
+		b, _ := io.ReadAll(r)
+		done <- string(b)
+	}()
+	func() {
+		defer func() {
+			recover()
+			os.Stdout = old
+			w.Close()
+		}()
+		srv.PrintRoutes()
+	}()
+	text := <-done
+	r.Close()
+	lines := strings.Split(strings.TrimSuffix(text, "\n"), "\n")
+	if len(lines) == 0 || lines[0] != "Routes:" {
+		return []string{"<no header>"}
+	}
+	res := []string{}
+	for _, l := range lines[1:] {
+		res = append(res, strings.TrimPrefix(l, "  "))
+	}
+	return res
 }
 
 func pairs(rs []rest.Route) [][2]string {
@@ -322,6 +393,7 @@ func buildServers(c Case, st *state, out *Out) []http.Handler {
 	}
 	for _, srv := range servers {
 		out.Routes = append(out.Routes, pairs(srv.Routes()))
+		out.Printed = append(out.Printed, printRoutes(srv))
 	}
 	for _, t := range tables {
 		out.TablesAfter = append(out.TablesAfter, pairs(t))
@@ -429,6 +501,7 @@ func runCase(c Case, token string) (out Out) {
 		}
 		if server {
 			req.Header.Set("Authorization", "Bearer "+token)
+			req.Header.Set("Origin", "http://c09.example")
 		}
 		res.Path = req.URL.Path
 		res.Clean = path.Clean(req.URL.Path)
@@ -446,7 +519,7 @@ func runCase(c Case, token string) (out Out) {
 		res.Status = w.Code
 		allow, hasAllow := w.Header()["Allow"]
 		runs, custom := st.runs, st.custom
-		cors := w.Header().Get("Access-Control-Allow-Origin") != ""
+		_, cors := w.Header()["Access-Control-Allow-Origin"]
 		wantCors := server && c.Servers[si].Cors
 		switch {
 		case panicked:
